@@ -6,7 +6,8 @@ def run_check(tier, seed, replay=None):
     return loader_check("C01", tier, seed, replay, CODE_ROUNDTRIP | CODE_PANIC, "MC_Loader_%s.cfg" % tier,
         suites=[("model", "classes", ["--reps", "1"], True),
                 ("sweep", "sweep", [], False),
-                ("random", "random", ["--n", "1200" if quick else "20000"], False)],
+                ("random", "random", ["--n", "1200" if quick else "20000"], False),
+                ("raw", "raw", ["--n", "400" if quick else "8000"], False)],
         required_outcomes=["ok"],
         assumptions=BASE_ASSUMPTIONS + ["inputs are zero-padded after string terminators, so re-encoding must be word-identical (the property tolerates differences there only)",
                                         "'none dropped, duplicated or invented' is decided through Loader!Load, which files each instruction exactly once (MC_Loader!Preserve, Identity, checked on all class sequences up to the bound); the real module must equal it section by section",
